@@ -33,10 +33,12 @@ type SimSpec struct {
 	CutProb    float64 `json:"cut_prob,omitempty"`
 	MaxSteps   int     `json:"max_steps,omitempty"`
 	TickWeight float64 `json:"tick_weight,omitempty"`
+	// NoPayloadHash: see sched.Config.NoPayloadHash (request bytes that depend on map iteration order in the library)
+	NoPayloadHash bool `json:"no_payload_hash,omitempty"`
 }
 
 func newSimEnv(seed uint64, sp SimSpec, out *Outcome) *simEnv {
-	cfg := sched.Config{CutProb: sp.CutProb, MaxSteps: sp.MaxSteps, KeepTape: *flagTape}
+	cfg := sched.Config{CutProb: sp.CutProb, MaxSteps: sp.MaxSteps, KeepTape: *flagTape, NoPayloadHash: sp.NoPayloadHash}
 	cfg.W = sched.DefaultWeights
 	if sp.TickWeight > 0 {
 		cfg.W.Tick = sp.TickWeight
